@@ -18,11 +18,14 @@ static bool g_poison = false;
 
 static void* poisonedAlloc(std::size_t n)
 {
-    void* p = malloc(n ? n : 1);
+    // natively the block is over-allocated by 16 bytes and the tail is filled too, so that a read just past the end of a
+    // block depends on the fill pattern as well (under valgrind the exact size is allocated and nothing is filled)
+    const std::size_t slack = g_poison ? 16 : 0;
+    void* p = malloc((n ? n : 1) + slack);
     if (!p)
         throw std::bad_alloc();
     if (g_poison)
-        memset(p, g_fill, n);
+        memset(p, g_fill, n + slack);
     return p;
 }
 void* operator new(std::size_t n)
